@@ -58,7 +58,26 @@ func variantOf(r *Rng, g *GenRR) []byte {
 	if (g.Type == dns.TypeSVCB || g.Type == dns.TypeHTTPS) && r.Chance(40) {
 		sel = 6
 	}
+	if r.Chance(12) {
+		sel = 7
+	}
 	switch sel {
+	case 7: // an owner octet that is not a letter changed in bit 0x20 only ('[' <-> '{', '@' <-> '`', '0' <-> 0x10 …)
+		var pos []int
+		p := 0
+		for p < ol-1 {
+			l := int(w[p])
+			for q := p + 1; q < p+1+l; q++ {
+				lo := w[q] | 0x20
+				if lo < 'a' || lo > 'z' {
+					pos = append(pos, q)
+				}
+			}
+			p += 1 + l
+		}
+		if len(pos) > 0 {
+			w[pos[r.Intn(len(pos))]] ^= 0x20
+		}
 	case 6: // SVCB: renumber one generic parameter key, keeping the value octets and the ascending order
 		p := ol + 10 + 2
 		for p < len(w) && w[p] != 0 { // target name
@@ -212,6 +231,30 @@ func runC20(c *Ctx) {
 		want := x.Hdr.Rrtype == y.Hdr.Rrtype
 		d := dns.IsDuplicate(x, y)
 		c.Pred("pairs", "isdup-iff-wire:ANY-struct", fmt.Sprintf("%s types %d %d", name, x.Hdr.Rrtype, y.Hdr.Rrtype), d == want, b01(d), b01(want), true)
+	}
+	// every octet against its bit-0x20 partner, in the owner and in an embedded name: duplicates exactly for the 26 letters
+	for b := 0; b < 256; b++ {
+		x, y := byte(b), byte(b)^0x20
+		isLetter := (x|0x20) >= 'a' && (x|0x20) <= 'z'
+		la := [][]byte{{'a', x, 'b'}, []byte("example")}
+		lb := [][]byte{{'a', y, 'b'}, []byte("example")}
+		for _, where := range []string{"owner", "rdata"} {
+			var wa, wb []byte
+			if where == "owner" {
+				wa = assembleRR(la, dns.TypeA, 1, 5, []byte{192, 0, 2, 1})
+				wb = assembleRR(lb, dns.TypeA, 1, 5, []byte{192, 0, 2, 1})
+			} else {
+				wa = assembleRR([][]byte{[]byte("o")}, dns.TypeCNAME, 1, 5, wireOf(la))
+				wb = assembleRR([][]byte{[]byte("o")}, dns.TypeCNAME, 1, 5, wireOf(lb))
+			}
+			ra, _, e1 := dns.UnpackRR(wa, 0)
+			rb, _, e2 := dns.UnpackRR(wb, 0)
+			if e1 != nil || e2 != nil {
+				continue
+			}
+			d := dns.IsDuplicate(ra, rb)
+			c.Pred("pairs", "isdup-bit5:"+where, fmt.Sprintf("octet=%d a=%s b=%s", b, hx(wa), hx(wb)), d == isLetter, b01(d), b01(isLetter), true)
+		}
 	}
 	// Dedup: lists with duplicate patterns
 	nl := c.Scale(3000, 60000)
